@@ -34,7 +34,12 @@ REQUIRED = ['getNBest_perm', 'getNBest_rename', 'mem_getNBest_iff', 'symmetric_c
             'copeland_rename_both', 'stv_rename', 'stv_distributor_rename', 'slotsEquiv_symm', 'slotsEquiv_trans', 'slotsEquiv_elected',
             'copeland_symmetric_candidates', 'minimax_symmetric_candidates', 'schulze_symmetric_candidates',
             'condorcet_sets_symmetric_candidates', 'stv_symmetric_candidates', 'score_voting_symmetric_candidates',
-            'pav_symmetric_candidates', 'spav_symmetric_candidates']
+            'pav_symmetric_candidates', 'spav_symmetric_candidates',
+            'quota_distributor_perm_all', 'largest_remainder_perm_all', 'ranked_pairs_pairwise_tie_order_witness',
+            'baldwin_perm', 'baldwin_rename', 'benham_perm', 'tideman_perm', 'star_perm',
+            'baldwin_rename_noshared', 'baldwin_symmetric_candidates', 'benham_rename', 'tideman_rename', 'star_rename',
+            'star_rename_relisted', 'preference_addition_perm', 'decouple_perm', 'preference_addition_order_witness',
+            'preference_addition_rename']
 _LR = ['hare', 'hagenbach_bischoff', 'imperiali', 'droop', 'hare_rounded', 'hagenbach_bischoff_ceil', 'hagenbach_bischoff_rounded']
 
 
@@ -106,6 +111,15 @@ def _mj(tb):
 MODEL['majority_judgment'] = (_mj('default'), 'sel')
 MODEL['majority_judgment_plus'] = (_mj('plus'), 'sel')
 PROVED_FAMILIES = list(MODEL)
+# models of C08 (Baldwin, n-seat PreferenceAddition), C05 (Benham / Tideman, one seat: modelled for n = 1 only) and C12 (STAR)
+PROVED_FAMILIES += ['baldwin', 'benham', 'tideman_alternative', 'star', 'bucklin', 'oklahoma']
+MODEL['baldwin'] = (_simple('baldwin'), 'sel')
+MODEL['bucklin'] = (_simple('preference_addition', coef='bucklin', split=True), 'sel')
+MODEL['oklahoma'] = (_simple('preference_addition', coef='oklahoma', split=True), 'sel')
+MODEL['benham'] = ((lambda prof, n: dict(op='benham', profile=prof) if n == 1 else None), 'sel')
+MODEL['tideman_alternative'] = ((lambda prof, n: dict(op='tideman', profile=prof, smith=True) if n == 1 else None), 'sel')
+MODEL['star'] = ((lambda prof, n: dict(op='c10_star', votes=[[[[c, str(sc)] for c, sc in b], int(w)] for b, w in prof], n=n,
+                                       added_count=1, added_fraction='0', unscored=None, min_count=0, truncation='0', bottom='0')), 'sel')
 K_PERM = 3
 K_REN = 3
 HASH_SEEDS = ['0', '1', '2', '3', 'random']
@@ -126,9 +140,11 @@ except Exception:
     pass
 # statements of the proved families that are NOT covered by a theorem
 UNPROVED += [
-    'quota_distributor_perm_subtract (QuotaDistributor / LargestRemainder with on_overaward="subtract")',
-    'ranked_pairs_perm_distinct_majorities_only (proved under Perm.RPDistinct: the (score, count) sort keys separate ALL pairs, '
-    'losing pairs included; the property only asks the majorities to have pairwise distinct strengths)',
+    'quota_distributor_rename_subtract (renaming equivariance of QuotaDistributor / LargestRemainder with on_overaward="subtract"; '
+    'ballot order is proved for every policy)',
+    'ranked_pairs_perm_distinct_majorities_only (FALSE of the code for pairwise ties: ranked_pairs_pairwise_tie_order_witness, open '
+    'finding; proved under Perm.RPDistinct: the (score, count) sort keys separate ALL pairs)',
+    'benham / tideman_alternative for n_seats > 1 (the models of C05 are one-seat; n = 1 is proved)',
     'majority_judgment_rename (proved for order-preserving renamings only: majority_judgment_rename_mono_partial)',
     'rename_equivariant_thresholds_quota_selector_under_noninjective: n/a (proved for every renaming)',
     'hash_seed_independence (not expressible in a Lean model; sampled)',
@@ -331,7 +347,10 @@ def oracle(case, obs):
 
 
 def signature(case, clause):
-    return f"{case['op']}:{case['family']}:{clause}"
+    sig = f"{case['op']}:{case['family']}:{clause}"
+    if case['op'] == 'invariance' and case['family'].startswith('condorcet_rankedpairs') and not _distinct_strengths(case['prof']):
+        sig += ':pairwise_tie'      # outside the generator's reading of the quantifier (all pair counts distinct); see known findings
+    return sig
 
 
 def nontrivial(case, obs):
@@ -436,14 +455,15 @@ TECHNIQUE = ('Lean 4 proofs of permutation invariance and renaming equivariance 
              'deterministic families, permutations, renamings and hash seeds')
 LEVEL_TEXT = ('Ballot-order independence and renaming equivariance (up to the order of equally placed winners and of tie members, made explicit by '
               'SlotsEquiv / ExceptEquiv / DistEquiv) are proved in Lean for all inputs for: plurality/get_n_best, the thresholds, QuotaSelector, all '
-              'highest-averages methods, QuotaDistributor and LargestRemainder (policies error/ignore), the converters to simple / positional / '
+              'highest-averages methods, QuotaDistributor and LargestRemainder (order: every over-award policy; renaming: error/ignore), the converters to simple / positional / '
               'pairwise votes and the positional rules and approval voting built on them, Condorcet winner, Smith and Schwartz sets, Copeland '
               '(both orders), minimax (3 scorers), Schulze, Kemeny-Young, ranked pairs (order: under separated sort keys), STV with Gregory '
-              'transfers (selector and distributor), PAV, SPAV, score voting, majority judgment (renaming: order-preserving only); with the '
+              'transfers (selector and distributor), PAV, SPAV, score voting, majority judgment (renaming: order-preserving only), STAR, Baldwin, '
+              'Bucklin / Oklahoma (n seats, with the decoupling of shared ranks), Benham and Tideman alternative (one seat); with the '
               'symmetric-candidates corollary for most of them. The models are those of the owning properties, evaluated here on permuted and '
-              'renamed presentations against the implementation. The remaining deterministic families (Benham, Tideman alternative, Baldwin, '
-              'Bucklin/Oklahoma, STAR, allocated score) are decided by the oracle on the implementation only; hash-seed independence is sampled in '
+              'renamed presentations against the implementation. Allocated score (genuinely order dependent: open findings) and Benham / Tideman '
+              'with more than one seat are decided by the oracle on the implementation only; hash-seed independence is sampled in '
               'subprocesses under 5 PYTHONHASHSEED values (partial: not expressible in a Lean model).')
-LEVEL_NOTE = ('Trusted: Lean kernel + standard axioms; the models of C01/C02/C03/C05/C06/C09/C12/C13/C16 tied to the code by their owners\' correspondence '
+LEVEL_NOTE = ('Trusted: Lean kernel + standard axioms; the models of C01/C02/C03/C05/C06/C08/C09/C12/C13/C16 tied to the code by their owners\' correspondence '
               'and re-checked here on permuted / renamed inputs (outcomes compared as multisets). Partial: hash seeds sampled only; families without '
               'Lean theorem decided by oracle only; order of winners not compared (multiset).')
